@@ -144,6 +144,13 @@ def validNum (t : List Char) : Bool :=
 
 def isIntForm (t : List Char) : Bool := (stripMinus t).all Char.isDigit
 
+/-- a number text that is not an integer form (has a fraction or an exponent) -/
+def decOk (t : List Char) : Bool :=
+  validNum t && !isIntForm t && t.all isNumChar &&
+    (match t with
+     | c :: _ => c = '-' || c.isDigit
+     | [] => false)
+
 def intOfText (t : List Char) : Int :=
   match t with
   | '-' :: r => - (Nat.ofDigitChars 10 r 0 : Nat)
@@ -610,7 +617,7 @@ def readLit (kind : LitKind) (tok : List Char) : Option Val :=
 def litOk (kind : LitKind) (tok : List Char) (v : Val) : Bool :=
   match kind with
   | .ratio => (match v with
-               | .float r => Json.validNum r && !Json.isIntForm r
+               | .float r => Json.decOk r
                | _ => false)
   | _ => readLit kind tok == some v
 
